@@ -282,11 +282,18 @@ def _known_class(op, kind):
     if toks[0] == 'rt' and len(toks) == 4 and toks[1] == 'windows' and kind == 'pred:fix':
         import unicodedata
         try:
-            t = ''.join(chr(int(x, 16)) for x in toks[3].split(',')) if toks[3] != '-' else ''
+            us = [int(x, 16) for x in toks[3].split(',')] if toks[3] != '-' else []
+            if toks[2] == '8': t = bytes(u & 0xFF for u in us).decode('utf-8', 'replace')
+            elif toks[2] == '16': t = b''.join((u & 0xFFFF).to_bytes(2, 'little') for u in us).decode('utf-16-le', 'replace')
+            else: t = ''.join(chr(u) if u < 0x110000 else '\ufffd' for u in us)
         except (ValueError, OverflowError):
             t = ''
         m = re.match(r'^[\\/]{2}(?:[?.][\\/][uU][nN][cC][\\/])?([^\\/]+)[\\/]', t)
-        if m and unicodedata.normalize('NFKC', m.group(1)).lower() == 'localhost': return 'F6'
+        if m:
+            # what UTS #46 makes of the server name, approximately: ignored code points (soft hyphen, zero-width and other
+            # format characters, variation selectors) dropped, compatibility mapping, case folding
+            srv = ''.join(c for c in m.group(1) if unicodedata.category(c) != 'Cf' and not (0xFE00 <= ord(c) <= 0xFE0F or 0xE0100 <= ord(c) <= 0xE01EF or ord(c) == 0x034F or 0x180B <= ord(c) <= 0x180D))
+            if unicodedata.normalize('NFKC', srv).lower() == 'localhost': return 'F6'
     return None
 
 # --------------------------------------------------------------------------- main
